@@ -1525,7 +1525,36 @@ def gen_parse():
     out += ["", "/-- `if invert && kind == .. { kind = .. }` -/",
             f"def final_kind (invert : Bool) (kind : Nat) : Nat := if invert && kind == {kind_id(m.group(1))} then {kind_id(m.group(2))} else kind", "",
             "/-- `Atom::new_inner(atom, case, normalize, kind, <escape_whitespace>, append_dollar)`; then `pattern.negative = invert` -/",
-            f"def escape_whitespace : Bool := {m.group(3)}", "",
+            f"def escape_whitespace : Bool := {m.group(3)}", ""]
+    # pattern_atoms: the stateful closure handed to str::split
+    pa = fn_bodies(msrc).get("pattern_atoms", [None])[0]
+    mm = re.fullmatch(r"\{\s*let mut saw_backslash = false;\s*pattern\.split\(move \|c\| \{\s*saw_backslash = match c \{(.*?)\};\s*false\s*\}\)\s*\}", (pa or "").strip(), re.S)
+    if not mm:
+        raise TranslateError("pattern_atoms has an unexpected shape")
+    arms = [a.strip() for a in mm.group(1).split(",") if a.strip()]
+    rows = []
+    for a in arms:
+        lhs, rhs = [x.strip() for x in a.split("=>")]
+        if rhs == "return true":
+            val = "(true, saw)"
+        elif rhs in ("true", "false"):
+            val = f"(false, {rhs})"
+        else:
+            raise TranslateError(f"pattern_atoms: arm value {rhs!r}")
+        if lhs == "c if c.is_whitespace() && !saw_backslash":
+            cond = "is_ws && !saw"
+        elif re.fullmatch(r"'(\\.|[^\\])'", lhs):
+            cond = f"c == {byte_lit('b' + lhs)}"
+        elif lhs == "_":
+            cond = None
+        else:
+            raise TranslateError(f"pattern_atoms: arm pattern {lhs!r}")
+        rows.append((cond, val))
+    if not rows or rows[-1][0] is not None or any(c is None for c, _ in rows[:-1]):
+        raise TranslateError("pattern_atoms: the match needs exactly one catch-all arm, at the end")
+    chain = " else ".join(f"if {c} then {v}" for c, v in rows[:-1]) + f" else {rows[-1][1]}"
+    out += ["/-- the closure of `pattern_atoms` on one character: (split here?, saw_backslash afterwards); `is_ws` = `c.is_whitespace()` -/",
+            f"def split_step (saw : Bool) (is_ws : Bool) (c : Nat) : Bool × Bool := {chain}", "",
             "end NucleoVerif.Gen.Parse"]
     return "\n".join(out) + "\n"
 
